@@ -115,7 +115,7 @@ def applyOp (kf : Bool) (a : Acc) (op : Op) (txt : String) : Acc :=
     else a.fail (.diverge s!"generator emitted an operation that is not strictly legal in the model (op #{a.nops + 1}: {txt})")
   let s' := step a.s op
   let a := { a with s := s', nops := a.nops + 1, stats := bumpStats a.stats ("op." ++ opName op) 1 }
-  let a := if !a.s.consolidate then { a with offOps := a.offOps + 1 } else a
+  let a := if !a.s.consolidate then { a with offOps := a.offOps + 1, stats := bumpStats a.stats ("off." ++ opName op) 1 } else a
   let a := match op with
     | .deleteShape _ | .deleteJunction _ | .deleteConn _ | .deletePin _ => { a with deletes := a.deletes + 1 }
     | .rNewConn c => { a with routerMade := c :: a.routerMade }
